@@ -47,7 +47,7 @@ CLAIM = {
     "design_ref": "DESIGN.md §4 C20",
     "note": "serde_json's text parser, git, the third-party transcript readers and the file system are environment: exercised by "
             "the payload matrix (oracle), not proved. Open classes K1, K4, K6 are reproduced on the real binary at every run; the "
-            "repaired classes K2, K3, K5, K7 are regression witnesses that must pass.",
+            "repaired classes K2, K3, K5, K7, K8 are regression witnesses that must pass.",
     "technique": "Coq proof over extracted model + translator-regenerated tables + system-level differential runs + oracle",
 }
 TRUSTED_BASE = [
@@ -1242,6 +1242,26 @@ def witness(args):
             in_own = any("d0.txt" in fs for k, fs in logs["rad"])
             in_ra = any(fs for k, fs in logs["ra"])
             return not (rc == 0 and in_own and not in_ra)
+        if which == "K8":
+            # (a) the buffer of a nested repository's file must not be recorded in the outer repository
+            f = ra + "/inner/i0.txt"
+            _w(f, "ai\n", "a")
+            v = O(type="ai_agent", repo_working_dir=ra, edited_filepaths=["a0.txt", f], transcript=O(messages=[]), agent_name="toolx",
+                  model="m1", conversation_id="k8", dirty_files=Obj([(f, open(f).read())]))
+            _w(ra + "/a0.txt", "ai\n", "a")
+            rc, err = W.run("agent-v1", jtext(v), cwd=ra)
+            logs, _ = W.read_logs()
+            nested_in_outer = any(any(x.startswith("inner/") for x in fs) for k, fs in logs["ra"])
+            # (b) a relative key (a file of ra) must not become a phantom entry of the repository the request is forwarded to
+            _w(ra + "/a1.txt", "ai\n", "a")
+            _w(rb + "/b0.txt", "ai\n", "a")
+            v = O(type="ai_agent", repo_working_dir=ra, edited_filepaths=["a1.txt", rb + "/b0.txt"], transcript=O(messages=[]),
+                  agent_name="toolx", model="m1", conversation_id="k8b",
+                  dirty_files=Obj([("a1.txt", open(ra + "/a1.txt").read()), (rb + "/b0.txt", open(rb + "/b0.txt").read())]))
+            rc2, err2 = W.run("agent-v1", jtext(v), cwd=ra)
+            logs, _ = W.read_logs()
+            phantom = any("a1.txt" in fs for k, fs in logs["rb"])
+            return rc != 0 or rc2 != 0 or nested_in_outer or phantom
         if which == "K7":
             _w(ra + "/a0.txt", "ai\n", "a")
             _w(ra + "/sub/a2.txt", "ai\n", "a")
@@ -1267,6 +1287,8 @@ FIXED = {
     "K3": "fixed C20-K3 (checkpoint panicked when the process working directory no longer exists)",
     "K5": "fixed C20-K5 (copilot session timestamp + totalElapsed overflow panic)",
     "K7": "fixed C20-K7 (one listed path git refuses made git status fail and lost every file of that pass)",
+    "K8": "fixed C20-K8 (dirty_files: the buffer of a nested repository's file was recorded in the outer repository; a relative key "
+          "was recorded as a non-existent file of every other repository the request was forwarded to)",
     "G1": "guard: a file of a sibling repository whose directory name extends this repository's name (ra / ra-docs) is recorded "
           "in its own repository only (work-dir membership is component-wise, not a string prefix)",
 }
